@@ -45,6 +45,7 @@ def parseEv (ln : Line) : Option Ev :=
   | "closeret" => some .closeret
   | "cancel" => some .cancel
   | "runret" => some .runret
+  | "runerr" => some .runerr
   | "adv" => (ln.nat? "t").map .adv
   | "recv" => (ln.nat? "t").map .recv
   | "hin" => (ln.nat? "park").map fun p => .hin (p == 1)
